@@ -61,6 +61,10 @@ def main():
             from pbt import env as _env
 
             h = _env.tree_hash(dst)
+            ref = os.path.join(VERIF, ".work", "c18ref")
+            for d in os.listdir(ref) if os.path.isdir(ref) else []:
+                if d.startswith(h) and h != _env.tree_hash('/repo'):
+                    shutil.rmtree(os.path.join(ref, d), ignore_errors=True)
             root = os.path.join(VERIF, ".cache", "numba")
             for d in os.listdir(root) if os.path.isdir(root) else []:
                 if d.startswith(h) and h != _env.tree_hash('/repo'):
